@@ -202,6 +202,11 @@ func (m *labelModel) renderCmd(c *spec.Cmd) string {
 			args = append(args, strings.Join(a.Toks, " "))
 		}
 	}
+	// a comma directly before the closing parenthesis is a trailing comma, not a separator: the (empty)
+	// argument after it does not exist
+	if n := len(c.Args); n > 0 && c.Args[n-1].Text == nil && c.Args[n-1].Moves == nil && len(c.Args[n-1].Toks) == 0 {
+		args = args[:n-1]
+	}
 	if len(args) == 0 {
 		return c.Name
 	}
